@@ -291,6 +291,8 @@ def run(ck: Check, repo: Repo) -> None:
                      "otherwise a row is masked with another (agent, environment) pair's mask and masked actions get non-zero probability")
     from .c14 import _ippo_masks
     _ippo_masks(ck, repo, "C16.8")
+    from ._c16_r5 import run_r5
+    run_r5(ck, repo)
 
 
 def _handlers(ck: Check, repo: Repo) -> None:
